@@ -187,6 +187,21 @@ package common
 //@        && forall(j, index + 1, len(locInfoList.VarVec),
 //@            !locBefore(locInfoList.VarVec[j].Loc.StartLine, locInfoList.VarVec[j].Loc.StartColumn, loc.StartLine, loc.StartColumn))
 //@   loop for:index>=0 decreases index + 1
+// completeness over one scope: every name of the scope is considered; a name that passes the prefix filter, is not
+// already offered by an inner scope and has a declaration at or before the cursor IS offered (exactly once); the
+// search for the declaration stops early only when one was offered
+//@   loop range:scope.LocVarMap exits-early-only-if [every-name-of-the-scope-is-considered] false
+//@   loop for:index>=0 exits-early-only-if [search-stops-only-at-a-declaration-before-the-cursor] locBefore(locVar.Loc.StartLine, locVar.Loc.StartColumn, loc.StartLine, loc.StartColumn)
+//@   loop for:index>=0 invariant hits("InsertCompleteVar#0") == atentry(hits("InsertCompleteVar#0"))
+//@   loop range:scope.LocVarMap step [visible-unshadowed-name-is-offered] IsCompleteNeedShow(strName, completeVar) && !prev(has(cache.existMap, strName))
+//@        && exists(j, 0, len(locInfoList.VarVec), locBefore(locInfoList.VarVec[j].Loc.StartLine, locInfoList.VarVec[j].Loc.StartColumn, loc.StartLine, loc.StartColumn))
+//@        ==> hits("InsertCompleteVar#0") == prev(hits("InsertCompleteVar#0")) + 1
+//@ end
+// the prefix filter: a function of the name and the request (it reads nothing else)
+//@ func IsCompleteNeedShow
+//@   props C14
+//@   functional
+//@   trusted
 //@ end
 
 // The functions that build the scope tree establish the declared type invariants of ScopeInfo / VarInfoList.
